@@ -1,5 +1,9 @@
 (* Model runner for C12.  usage: c12_model cases.txt impl.txt > model.txt
    G <allow> <users> <rules> <proxies>   sets the configuration      -> "-"
+   L <domain> <ip>                       the reading of a domain string as an IP literal by Go's resolver and
+                                         dialer (netip.ParseAddr, zone dropped, unmapped), supplied by the driver;
+                                         strings without an L line are no literals                  -> "-"
+   The model runs with fx = tree_fixed (regenerated probe: is fixes/C12-domain-literal.diff in the tree?).
    F <user> <proto_ok> <data>            FindAction                  -> "<action> <proxy|nil>"
        (the draw of mrand.Intn is not observable: the implementation's line is printed iff some index explains it)
    S <user> <data>                       CONNECT through the real server -> "<reply> <connection opened>"
@@ -39,15 +43,20 @@ let parse_cfg allow users rules proxies =
 let render (a, p) =
   Printf.sprintf "%d %s" (int_of_n a) (match p with None -> "nil" | Some s -> hex_of_bytes s)
 
+let lits : (string, n list) Hashtbl.t = Hashtbl.create 64
+let lit (s : n list) : n list option = Hashtbl.find_opt lits (hex_of_bytes s)
+let fx = tree_fixed
+
 let () =
   let cases = open_in Sys.argv.(1) and impl = open_in Sys.argv.(2) in
   let cfg = ref (parse_cfg "0" "." "." ".") in
   iter_lines cases (fun line ->
     let obs = (try input_line impl with End_of_file -> "") in
     match split_ws line with
+    | ["L"; dom; ip] -> Hashtbl.replace lits (hex_of_bytes (hx dom)) (hx ip); print_endline "-"
     | ["G"; allow; users; rules; proxies] -> cfg := parse_cfg allow users rules proxies; print_endline "-"
     | ["F"; user; proto; data] ->
-      let run i = render (find_action !cfg (proto = "1") (hx user) (hx data) (n_of_int i)) in
+      let run i = render (find_action fx lit !cfg (proto = "1") (hx user) (hx data) (n_of_int i)) in
       let l0 = run 0 in
       if obs = l0 then print_endline l0
       else begin
@@ -55,7 +64,7 @@ let () =
         print_endline (try_idx 1)
       end
     | ["S"; user; data] ->
-      let (a, _) = find_action !cfg true (hx user) (hx data) N0 in
+      let (a, _) = find_action fx lit !cfg true (hx user) (hx data) N0 in
       if a = aCT_REJECT then print_endline "2 0" else if a = aCT_DIRECT then print_endline "0 1" else print_endline "? ?"
     | ["R"; user; stop; pkts] ->
       let ps = List.map hx (String.split_on_char ',' pkts) in
@@ -63,12 +72,12 @@ let () =
       (* indexes of the datagrams sent, until the loop stops *)
       let rec go i l acc = match l with
         | [] -> List.rev acc
-        | p :: r -> (match relay_step !cfg u st p with
+        | p :: r -> (match relay_step fx lit !cfg u st p with
                      | RSent _ -> go (i + 1) r (i :: acc)
                      | RDropped -> go (i + 1) r acc
                      | RStop -> List.rev acc) in
       let sent = go 0 ps [] in
       (* consistency with relay_run *)
-      if List.length (relay_run !cfg u st ps) <> List.length sent then print_endline "relay_run/relay_step disagree"
+      if List.length (relay_run fx lit !cfg u st ps) <> List.length sent then print_endline "relay_run/relay_step disagree"
       else print_endline (String.concat " " ("sent" :: List.map string_of_int sent))
     | _ -> print_endline "?")
